@@ -103,8 +103,12 @@ fn disarm() -> usize {
 static LAST_PANIC: Mutex<Option<String>> = Mutex::new(None);
 /// watchdog kills so far (parent side): a tree that hangs everywhere must not cost hours
 static HANGS: AtomicUsize = AtomicUsize::new(0);
-const HANGS_SHORT_TIMEOUT: usize = 36;
-const HANGS_GIVE_UP: usize = 240;
+const HANGS_SHORT_TIMEOUT: usize = 150;
+const HANGS_GIVE_UP: usize = 400;
+/// hangs the model did not predict are confirmed with a long timeout (a loaded machine must not
+/// turn a slow case into a finding); only the first few, a tree that hangs everywhere stays cheap
+static CONFIRMED: AtomicUsize = AtomicUsize::new(0);
+const CONFIRM_LIMIT: usize = 8;
 
 fn take_panic() -> String {
     LAST_PANIC
@@ -963,7 +967,7 @@ fn vtx_claim(bytes: &[u8]) -> u64 {
 impl Ctx {
     fn timeout_for(&self, c: &Case) -> Duration {
         if HANGS.load(Ordering::Relaxed) > HANGS_SHORT_TIMEOUT {
-            return Duration::from_millis(300);
+            return Duration::from_millis(1000);
         }
         if inner_loader(c) == "vtx" {
             self.vtx_timeout
@@ -1025,6 +1029,19 @@ impl Ctx {
         }
     }
 
+    fn predict(&mut self, c: &Case, req: &Option<String>, obs: &Obs) -> Pred {
+        match req {
+            Some(r) => {
+                let a = self.model.ask(r);
+                if a == "bad-op" || a == "unimplemented" {
+                    panic!("driver rejected: {}", &r[..r.len().min(300)]);
+                }
+                parse_pred(c, &a)
+            }
+            None => Pred { class: obs.class.clone(), detail: "-".into(), ..Default::default() },
+        }
+    }
+
     fn eval(&mut self, c0: &Case) -> Eval {
         let mut patched;
         let mut c = c0;
@@ -1039,17 +1056,18 @@ impl Ctx {
         let t = self.timeout_for(c);
         let obs = self.worker.run(c, t);
         let loader = inner_loader(c).to_string();
-        let req = model_request(c, self.fix, &obs);
-        let pred = match &req {
-            Some(r) => {
-                let a = self.model.ask(r);
-                if a == "bad-op" || a == "unimplemented" {
-                    panic!("driver rejected: {}", &r[..r.len().min(300)]);
-                }
-                parse_pred(c, &a)
+        let mut obs = obs;
+        let mut req = model_request(c, self.fix, &obs);
+        let mut pred = self.predict(c, &req, &obs);
+        if obs.class == "hang" && pred.class != "hang" && CONFIRMED.fetch_add(1, Ordering::Relaxed) < CONFIRM_LIMIT {
+            let again = self.worker.run(c, Duration::from_secs(10));
+            if again.class != "hang" {
+                HANGS.fetch_sub(1, Ordering::Relaxed);
             }
-            None => Pred { class: obs.class.clone(), detail: "-".into(), ..Default::default() },
-        };
+            obs = again;
+            req = model_request(c, self.fix, &obs);
+            pred = self.predict(c, &req, &obs);
+        }
         let model_class = if pred.alloc > CAP { "huge".to_string() } else { pred.class.clone() };
         let acceptable = obs.class == "ok" || obs.class == "err";
         // what an external decompressor legitimately adds to the allocation bound
